@@ -100,6 +100,8 @@ struct Rendered {
     names: [BTreeMap<String, String>; 2],
     sum: i64,
     scale: i64,
+    /// the JSON document as written (model of JsonDsl.tla), for fmt "jdoc"
+    jdoc: Option<Value>,
 }
 
 fn render(t: &Tree, fmt: &'static str, rng: &mut Rng, style: Option<Style>) -> Rendered {
@@ -113,7 +115,7 @@ fn render(t: &Tree, fmt: &'static str, rng: &mut Rng, style: Option<Style>) -> R
                 names[pl].insert(k.clone(), k.clone());
             }
         }
-        Rendered { fmt, text: cli::render_json(t).to_string(), doc: None, names, sum: 0, scale: 1 }
+        Rendered { fmt, text: cli::render_json(t).to_string(), doc: None, names, sum: 0, scale: 1, jdoc: None }
     } else {
         let style = style.unwrap_or_else(|| {
             let (sum, scale) = *rng.pick(&[(0i64, 1i64), (2, 1), (-6, 1), (2, 4), (10, 1), (-2, 2)]);
@@ -121,7 +123,7 @@ fn render(t: &Tree, fmt: &'static str, rng: &mut Rng, style: Option<Style>) -> R
         });
         let doc = cli::to_doc(t, &style, rng);
         let names = cli::shown_to_label(t, &doc);
-        Rendered { fmt, text: cli::render_efg(&doc, rng), names, sum: style.sum, scale: style.scale, doc: Some(doc) }
+        Rendered { fmt, text: cli::render_efg(&doc, rng), names, sum: style.sum, scale: style.scale, doc: Some(doc), jdoc: None }
     }
 }
 
@@ -278,8 +280,15 @@ fn emit_out(sink: &mut Sink, mode: &str, game: &str, t: &Tree, r: &Rendered, rou
                 let mut pays = Vec::new();
                 t.payoffs(&mut pays);
                 let unit = if pays.iter().all(|x| x.fract() == 0.0) { 1 } else { 1024 };
-                c["tree"] = serde_json::to_value(scaled(t, unit)).unwrap();
                 c["scale"] = json!(unit);
+                match &r.jdoc {
+                    // the specification derives the tree from the document as written (JsonDsl.tla)
+                    Some(j) => {
+                        c["jdoc"] = j.clone();
+                        c["wscale"] = json!(1);
+                    }
+                    None => c["tree"] = serde_json::to_value(scaled(t, unit)).unwrap(),
+                }
             }
         }
         sink.tlc.line(&c);
@@ -441,6 +450,8 @@ pub fn record(args: &Args) {
                 }
             }
         }
+        "cjson-meaning" => record_cjson(&mut sink, &exe, &dir, &games, &mut rng, thorough, &mut runs, true),
+        "cjson-faults" => record_cjson(&mut sink, &exe, &dir, &games, &mut rng, thorough, &mut runs, false),
         _ => record_c17(&mut sink, &exe, &dir, &games, &mut rng, thorough, &mut runs),
     }
     println!("{}", json!({"runs": runs, "games": games.len()}));
@@ -792,6 +803,93 @@ fn record_c17(sink: &mut Sink, exe: &str, dir: &str, games: &[(String, Tree)], r
     }
 }
 
+/// JSON documents as written (jdoc.rs / JsonDsl.tla): `meaning` = documents of the grammar and documents that use
+/// what the documentation leaves open (verdict and printed solution), otherwise one fault per document (verdict)
+#[allow(clippy::too_many_arguments)]
+fn record_cjson(sink: &mut Sink, exe: &str, dir: &str, games: &[(String, Tree)], rng: &mut Rng, thorough: bool, runs: &mut usize, meaning: bool) {
+    use crate::jdoc;
+    let routes = [
+        Route { flag: "json", src: "stdin", ext: "", to_file: false },
+        Route { flag: "default", src: "file", ext: ".json", to_file: true },
+        Route { flag: "auto", src: "file", ext: ".txt", to_file: false },
+        Route { flag: "default", src: "stdin", ext: "", to_file: false },
+        Route { flag: "json", src: "file", ext: ".efg", to_file: false },
+        Route { flag: "gambit", src: "file", ext: ".json", to_file: false },
+    ];
+    let verdict = |sink: &mut Sink, game: &str, what: &str, doc: &Value, unit: i64, text: &str, route: &Route, obs: &Observed, argv: &[String]| {
+        sink.id += 1;
+        let id = sink.id;
+        sink.tlc.line(&json!({"id": id, "kind": "verdict", "flag": if route.flag == "default" { "auto" } else { route.flag }, "src": route.src, "ext": route.ext,
+            "class": "jdoc", "jdoc": doc, "scale": unit, "wscale": 1}));
+        sink.full.line(&json!({"id": id, "kind": "verdict", "mode": "cjson", "game": game, "fault": what, "class": "jdoc", "argv": argv,
+            "route": {"flag": route.flag, "src": route.src, "ext": route.ext, "to_file": route.to_file},
+            "exit": obs.exit, "timed_out": obs.timed_out, "stderr_cat": obs.stderr_cat, "stderr": obs.stderr_head,
+            "stdout_empty": obs.stdout_empty, "outfile": obs.outfile, "printed_is_object": obs.printed.is_object(),
+            "text": if text.len() < 3000 { text.to_string() } else { String::new() }}));
+    };
+    for (gi, (name, t0)) in games.iter().enumerate() {
+        for variant in 0..2usize {
+            let mut t = t0.clone();
+            if variant == 1 {
+                dyadic_generic(&mut t, rng);
+            }
+            let unit = if variant == 0 { 1 } else { 1024 };
+            let kinds: &[(&str, jdoc::Open)] = &[("grammar", jdoc::STRICT), ("open", jdoc::OPEN)];
+            for (ki, (kind, open)) in kinds.iter().enumerate() {
+                let Some((doc, t2)) = jdoc::to_jdoc(&t, open, rng) else { continue };
+                if meaning {
+                    let text = jdoc::text(&doc, rng);
+                    let mut names = [BTreeMap::new(), BTreeMap::new()];
+                    for pl in 0..2 {
+                        let (mut m, mut s) = (BTreeMap::new(), BTreeMap::new());
+                        t2.infos(pl as u8 + 1, &mut m);
+                        t2.singles(pl as u8 + 1, &mut s);
+                        for k in m.keys().chain(s.keys()) {
+                            names[pl].insert(k.clone(), k.clone());
+                        }
+                    }
+                    let r = Rendered { fmt: "jdoc", text: text.clone(), doc: None, names, sum: 0, scale: 1, jdoc: Some(doc.clone()) };
+                    let budget = ["1", "2", "3"][(gi + ki + variant) % 3];
+                    let d = DISCOUNTS[(gi + ki) % 5];
+                    let mut opts: BTreeMap<&str, String> = BTreeMap::new();
+                    opts.insert("m", "full".into());
+                    opts.insert("d", d.to_string());
+                    opts.insert("t", budget.to_string());
+                    opts.insert("p", "1".into());
+                    let refsol = reference(&t2, d, budget.parse().unwrap(), 0.0, 1, 0.0).ok();
+                    let nroutes = if thorough { routes.len() } else { 3 };
+                    for k in 0..nroutes {
+                        let route = &routes[(k * 2 + gi + ki) % routes.len()];
+                        let (obs, argv) = execute(exe, dir, sink.id + 1, &text, route, &opt_vec(&opts));
+                        verdict(sink, name, kind, &doc, unit, &text, route, &obs, &argv);
+                        if obs.printed.is_object() && obs.exit == Some(0) && route.flag != "gambit" {
+                            emit_out(sink, "cjson", name, &t2, &r, route, &opts, &obs, &argv, None, refsol.clone());
+                        }
+                        *runs += 1;
+                    }
+                } else {
+                    let opts: Vec<String> = vec!["-m".into(), "full".into(), "-t".into(), "2".into(), "-p".into(), "1".into()];
+                    for (fi, f) in jdoc::FAULTS.iter().enumerate() {
+                        // quick: every fault on every game, alternating between the document kinds
+                        if !thorough && (fi + gi + variant) % 2 != ki {
+                            continue;
+                        }
+                        let Some(bad) = jdoc::apply_fault(&doc, f, rng) else { continue };
+                        let text = jdoc::text(&bad, rng);
+                        let nroutes = if thorough { 3 } else { 1 };
+                        for k in 0..nroutes {
+                            let route = &routes[(k * 2 + gi + fi) % 5];
+                            let (obs, argv) = execute(exe, dir, sink.id + 1, &text, route, &opts);
+                            verdict(sink, name, f, &bad, unit, &text, route, &obs, &argv);
+                            *runs += 1;
+                        }
+                    }
+                }
+            }
+        }
+    }
+}
+
 fn first_terminal_outcome(n: &DNode) -> i64 {
     match n {
         DNode::T { out, .. } => *out,
@@ -909,7 +1007,7 @@ pub fn replay(args: &Args) {
             let exit = c["exit"].as_i64();
             if c["timed_out"].as_bool() == Some(true) {
                 bad.push(json!({"class": "hang", "what": "the program did not terminate"}));
-            } else if cats.is_empty() {
+            } else if cats.is_empty() || (exp["solve_admissible"].as_bool() == Some(true) && exit == Some(0)) {
                 if exit != Some(0) || c["printed_is_object"].as_bool() != Some(true) {
                     bad.push(json!({"class": "rejects-valid", "what": "a valid input was not solved", "exit": exit, "stderr": c["stderr"]}));
                 }
